@@ -22,6 +22,22 @@ theorem recover_prefix_proc (p : WalParams) (hp : p.WF) (crc : Bytes → Nat) (h
          s ≤ ev.walNext ∧ (sync = 2 → ev.ackedSeq ≤ s) :=
   Kevo.Proofs.Crash.recover_prefix_proc p hp crc hcrc sync mem ops hops hseq k ev
 
+/-- POWER LOSS (the guaranteed survivor): cut the power at any instrumentation site of any workload, in any sync mode;
+    every log file keeps only what had been fsync'ed by then (`Crash.syncedAt`: the flushed lengths recorded at the latest
+    `wal.sync.synced` / `wal.close.synced` site; files created since are empty). Replaying that image yields, without
+    error, exactly the history up to a whole write s, and with synchronous logging s covers every acknowledged write.
+    The implementation's synced lengths (fsync calls seen by strace) and the state it recovers from exactly those bytes
+    are compared with `syncedLens` / `recoveredPower` after every acknowledgement by component `power`. -/
+theorem recover_prefix_power (p : WalParams) (hp : p.WF) (crc : Bytes → Nat) (hcrc : ∀ bs, crc bs < 2 ^ 32)
+    (sync mem : Nat) (ops : List WOp) (hops : ∀ o ∈ ops, WOpWF p o) (hseq : ops.length + 1 < p.maxSeq)
+    (k : Nat) (hk : 0 < k) (ev : Event) :
+    let c := runWorkload p crc sync mem ops
+    eventAt c k = some ev →
+    ∃ s, (replayDir p crc (diskSyncedAt c k)).entries = (c.eng.wal.flatten.filter (fun e => e.seq ≤ s)).map (asRead p) ∧
+         (replayDir p crc (diskSyncedAt c k)).isErr = false ∧
+         s ≤ ev.walNext ∧ (sync = 2 → ev.ackedSeq ≤ s) :=
+  Kevo.Proofs.Crash.recover_prefix_power p hp crc hcrc sync mem ops hops hseq k hk ev
+
 theorem clean_close_durable (p : WalParams) (hp : p.WF) (crc : Bytes → Nat) (hcrc : ∀ bs, crc bs < 2 ^ 32)
     (sync mem : Nat) (ops : List WOp) (hops : ∀ o ∈ ops, WOpWF p o) (hseq : ops.length + 2 < p.maxSeq) :
     let c := runWorkload p crc sync mem (ops ++ [.reopen])
@@ -37,5 +53,12 @@ example : ∀ o ∈ [WOp.put [1] [2], .tx [(false, [3], [4]), (true, [1], [])], 
   intro o ho
   simp at ho
   rcases ho with rfl | rfl | rfl | rfl | rfl <;> simp [WOpWF] <;> decide
+
+/-! non-vacuity of the power-loss theorem: with synchronous logging the synced image at the first acknowledgement holds
+    the whole first record (28 bytes: 7 header + 1 + 8 + 4 + 2 + 4 + 2), with sync mode "none" it holds nothing. -/
+example : (let c := runWorkload Kevo.Gen.walParams (fun _ => 0) 2 4096 [WOp.put [1, 2] [3, 4]]
+           (ackPositions c, syncedLens c 8)) = ([8], [28]) := by decide
+example : (let c := runWorkload Kevo.Gen.walParams (fun _ => 0) 0 4096 [WOp.put [1, 2] [3, 4]]
+           (ackPositions c, syncedLens c 6)) = ([6], [0]) := by decide
 
 end Kevo.Props.C02
